@@ -289,3 +289,69 @@ func VerifC02_BigQuick() {
 		vC02DefaultBig(vC02BigMsizes)
 	}
 }
+
+// ---- msize lowered between two writes -----------------------------------------
+// A write at msize A (any of several kinds, or none), then SetMSize(B) with
+// B < A as version negotiation does, then a write that must obey B.
+func VerifC02_AfterSetMSize() {
+	conn := &vCaptureConn{}
+	ch := newChannel(conn, codec9p{}, 128)
+	switch ndChoice("first", 4) {
+	case 1:
+		ch.WriteFcall(vBG, &Fcall{Type: Twrite, Tag: 1, Message: MessageTwrite{Fid: 1, Data: ndBytes("d0", 1)}})
+	case 2:
+		ch.WriteFcall(vBG, &Fcall{Type: Tread, Tag: 1, Message: MessageTread{Fid: 1, Count: ndU32("c0")}})
+	case 3:
+		ch.WriteFcall(vBG, &Fcall{Type: Tclunk, Tag: 1, Message: MessageTclunk{Fid: 1}})
+	}
+	conn.out = nil
+	b := []int{24, 25, 31, 64, 127}[ndChoice("b", 5)]
+	ch.SetMSize(b)
+	vAssert(ch.MSize() == b, "C02: SetMSize sets the msize")
+	tag := Tag(ndU16("tag"))
+	switch ndChoice("second", 3) {
+	case 0:
+		n := ndChoice("datalen", 7) + []int{0, b - 26}[ndChoice("near", 2)]
+		if n < 0 {
+			n = 0
+		}
+		data := vBigBytes("data", n)
+		msg := MessageTwrite{Fid: Fid(ndU32("fid")), Offset: ndU64("offset"), Data: data}
+		err := ch.WriteFcall(vBG, &Fcall{Type: Twrite, Tag: tag, Message: msg})
+		vAssert(err == nil, "C02: Twrite with msize >= 24 is always sent (possibly shortened)")
+		out := conn.out
+		vAssert(len(out) >= 23 && int(vLE32(out)) == len(out), "C02: length prefix equals total length")
+		vAssert(len(out) <= b, "C02: frame within msize")
+		if 23+n <= b {
+			vAssertEqBytes(out, vFrame(refEncode(Twrite, tag, msg)), "C02: fitting Twrite unmodified")
+		} else {
+			vAssert(len(out) == b, "C02: shortened Twrite frame is exactly msize")
+			short := MessageTwrite{Fid: msg.Fid, Offset: msg.Offset, Data: data[:b-23]}
+			vAssertEqBytes(out, vFrame(refEncode(Twrite, tag, short)), "C02: shortened Twrite carries a prefix of the data")
+		}
+	case 1:
+		count := ndU32("count")
+		msg := MessageTread{Fid: Fid(ndU32("fid")), Offset: ndU64("offset"), Count: count}
+		err := ch.WriteFcall(vBG, &Fcall{Type: Tread, Tag: tag, Message: msg})
+		vAssert(err == nil && len(conn.out) == 23, "C02: Tread is always sent")
+		if len(conn.out) == 23 {
+			c2 := vLE32(conn.out[19:23])
+			vAssert(uint64(c2)+11 <= uint64(b), "C02: largest reply permitted by the emitted count fits in msize")
+			vAssert(vImplies(uint64(count)+11 <= uint64(b), c2 == count), "C02: a count that already fits is unchanged")
+			vAssert(vImplies(uint64(count)+11 > uint64(b), uint64(c2)+11 == uint64(b)), "C02: a lowered count is the largest that fits")
+		}
+	case 2:
+		n := []int{b - 10, b - 9, b - 8}[ndChoice("elen", 3)]
+		msg := MessageRerror{Ename: string(vBigBytes("ename", n))}
+		want := refEncode(Rerror, tag, msg)
+		err := ch.WriteFcall(vBG, &Fcall{Type: Rerror, Tag: tag, Message: msg})
+		if 4+len(want) <= b {
+			vAssert(err == nil, "C02: a message that fits is sent")
+			vAssertEqBytes(conn.out, vFrame(want), "C02: exactly one unmodified frame")
+		} else {
+			vAssert(err != nil && Overflow(err) == 4+len(want)-b, "C02: error reports the excess")
+			vAssert(len(conn.out) == 0, "C02: too long => nothing emitted")
+		}
+	}
+	vReach("c02.aftersetmsize")
+}
